@@ -50,6 +50,13 @@ def run(rep, tier):
     from ..report import Premise
     from . import c19
     rep.rule("R7", "premise: X-point selection and topology choice (C19.R4)")
+    # finite chi on closed field lines, NaN elsewhere: the NaN ranges are y-subscripts of with-guard
+    # arrays built from the topology integers (rule instances of C08.R5/R6)
+    rep.rule("R8", "premise: y-subscripts of with-guard arrays (chi NaN ranges, theta offsets) land on region boundaries of the with-guard grid (C08.R5/R6)")
+    from . import c08 as _c08
+    from .. import tables as _tables
+    _topos = _tables.all_topologies(prog) + [_c08.torpex_topology(prog)] + _c08.circular_topologies(prog)
+    _c08.r5_r6(prog, Premise(rep, "R8", "C08"), _topos)
     c19.r4(prog, Premise(rep, "R7", "C19"))
     # the container the location-set analysis (R6) reasons about
     from . import c18
